@@ -146,7 +146,7 @@ class Parser:
         elif record_type == "fixed":
             return Fixed(default=default)
         elif record_type in self.named_schemas:
-            return self._parse(self.named_schemas[record_type])
+            return self._parse(self.named_schemas[record_type], default)
         else:
             raise Exception(f"Unhandled type: {record_type}")
 
